@@ -72,6 +72,6 @@ Accept(e) ==
       [] OTHER -> FALSE
 
 Init == l = 1
-Next == l <= Len(Rec) /\ Accept(Rec[l]) /\ l' = l + 1
+Next == l <= Len(Rec) /\ (Accept(Rec[l]) = TRUE) /\ l' = l + 1
 Spec == Init /\ [][Next]_l
 =============================================================================
